@@ -50,7 +50,9 @@ type shardRec struct {
 	Fails      []failRec        `json:"fails"`
 	Outcomes   []string         `json:"outcomes"`
 	Mutated    int64            `json:"mutated"`
-	Open       int64            `json:"open"` // cases the docs leave open (any non-crashing outcome accepted)
+	Open       int64            `json:"open"`        // cases the docs leave open (any non-crashing outcome accepted)
+	Aft        int64            `json:"aft"`         // "afterwards" cases compared
+	AftSkipped int64            `json:"aft_skipped"` // "afterwards" cases whose call itself already deviated (owned by the one-step family)
 	Sample     any              `json:"sample,omitempty"`
 	Incomplete bool             `json:"incomplete,omitempty"`
 }
@@ -115,6 +117,13 @@ func forEachCase(a shardArg, emit func(*Case)) {
 		}
 		return
 	}
+	if a.Fam == "aft" {
+		rs := arr2Receivers(a.Quick, a.At)
+		for i := a.Lo; i < a.Hi && i < len(rs); i++ {
+			genAft(a.M, rs[i], a.At, emit)
+		}
+		return
+	}
 	rs := strReceivers(a.Quick, a.At)
 	for i := a.Lo; i < a.Hi && i < len(rs); i++ {
 		genStr(a.M, rs[i], a.At, a.Quick, emit)
@@ -153,7 +162,7 @@ func worker(w *pool.W, arg json.RawMessage) {
 			if e.Any {
 				out.Open++
 			}
-			if o.Kind == "value" {
+			if o.Kind == "value" && c.Fam != "aft" {
 				if ca, ok := canonOf(o.After); ok && ca != canon(c.Recv) {
 					out.Mutated++
 				}
@@ -162,6 +171,13 @@ func worker(w *pool.W, arg json.RawMessage) {
 				out.Sample = map[string]any{"call": c.String(), "expected": describeExp(&e), "observed": describeObs(o)}
 			}
 			cl := compare(c, &e, o)
+			if c.Fam == "aft" {
+				if o.Kind == "base-mismatch" {
+					out.AftSkipped++
+				} else {
+					out.Aft++
+				}
+			}
 			if cl == "" {
 				continue
 			}
@@ -262,7 +278,7 @@ func main() {
 				acc++
 				planned++
 				perMethod[fam+":"+m]++
-				if e := expect(cs, at); !e.Any {
+				if e := expect(cs, at); !e.Any && cs.Fam != "aft" {
 					// cells the docs leave entirely open cannot fail and must not block widening
 					all[cellID(cs.Fam, cs.Cell, coarseShape(cs.Shape))] = true
 				}
@@ -280,11 +296,14 @@ func main() {
 	for _, m := range arrMethods {
 		plan("arr2", m, len(arr2Receivers(quick, at)))
 	}
+	for _, m := range aftMethods {
+		plan("aft", m, len(arr2Receivers(quick, at)))
+	}
 	for _, m := range strMethods {
 		plan("str", m, len(strReceivers(quick, at)))
 	}
 
-	var total, mutated, open int64
+	var total, mutated, open, aft, aftSkipped int64
 	cellCount := map[string]int64{}
 	failing := map[string]*cellFail{}
 	crashes := map[string]*failRec{}
@@ -299,6 +318,8 @@ func main() {
 		total += r.N
 		mutated += r.Mutated
 		open += r.Open
+		aft += r.Aft
+		aftSkipped += r.AftSkipped
 		incomplete = incomplete || r.Incomplete
 		for id, n := range r.Cells {
 			cellCount[id] += n
@@ -424,6 +445,11 @@ func main() {
 	c.Set("failing_fine_shapes_by_key", fineByKey)
 	c.Set("cases_where_receiver_changed", mutated)
 	c.Set("cases_docs_leave_open", open)
+	c.Set("afterwards_cases_compared", aft)
+	c.Set("afterwards_cases_skipped_call_already_wrong", aftSkipped)
+	if aft == 0 {
+		c.HarnessError("vacuous: no afterwards case was compared")
+	}
 	c.Set("atoms", at)
 	c.Set("shards", len(shards))
 	c.Assume("observation is json_encode (bin2hex for string results) of the result and of the receiver after the call, as the property prescribes; json_encode itself is C14's subject")
@@ -435,7 +461,7 @@ func main() {
 	if mutated == 0 {
 		c.HarnessError("vacuous: no case changed its receiver")
 	}
-	two := "; two-step family: every list of length <= %d over 2 values (+3 nested receivers) x one first call of {push(1), push(2), pop, shift, unshift(1), splice(0,1), $r=$r->slice(0), reverse, sort} x every method x argument tuple with item pools of 2 (concat 3) values, model applies both steps"
+	two := "; afterwards family: reduced receivers x array-returning / array-storing methods x every later write to result, receiver or array argument (own slot, push, through a nested element), all values required independent; two-step family: every list of length <= %d over 2 values (+3 nested receivers) x one first call of {push(1), push(2), pop, shift, unshift(1), splice(0,1), $r=$r->slice(0), reverse, sort} x every method x argument tuple with item pools of 2 (concat 3) values, model applies both steps"
 	bound := "array receivers: all lists of length <= 3 over 4 values (+ sort / flat pools); string receivers: all strings of length <= 3 over 4 characters" + fmt.Sprintf(two, 3)
 	if !quick {
 		bound = "array receivers: all lists of length <= 4 over 4 values and length 5 over 3 values (+ sort / flat pools); string receivers: all strings of length <= 5 over 4 characters" + fmt.Sprintf(two, 4)
